@@ -50,13 +50,20 @@ pub fn touches_syntax(fi: usize, s: &str) -> bool {
     fmts::e_keywords(fi).iter().any(|k| *k != " " && s.contains(k))
 }
 
+/// surface text of a description, printed through the LEXICAL formatter from a plain
+/// (Vec-based) lexical mirror — no enum value is built while GENERATING, so a library slip in
+/// hashing / construction cannot stall the generator; it shows up inside the check instead
+pub fn text_of(fi: usize, nd: &ND) -> String {
+    fmts::l(fi).format_narsese(&crate::lexgen::lex_of_nd(fi, nd, &[]).to_lex())
+}
+
 fn small_value_text(fi: usize) -> BoxedStrategy<String> {
-    let o = gen::TermOpts { depth: 2, size: 8, ..gen::TermOpts::main(fi) };
-    gen::narsese(o).prop_map(move |nd| fmts::e(fi).format_narsese(&build_n(&nd))).boxed()
+    let o = gen::TermOpts { depth: 2, size: 8, deep: false, ..gen::TermOpts::main(fi) };
+    gen::narsese(o).prop_map(move |nd| text_of(fi, &nd)).boxed()
 }
 
 pub fn value_text(fi: usize) -> BoxedStrategy<String> {
-    gen::narsese(gen::TermOpts::main(fi)).prop_map(move |nd| fmts::e(fi).format_narsese(&build_n(&nd))).boxed()
+    gen::narsese(gen::TermOpts::main(fi)).prop_map(move |nd| text_of(fi, &nd)).boxed()
 }
 
 const NUMBERS: [&str; 22] = [
